@@ -7,6 +7,7 @@
 #include "strops.c"
 #include "vharness.h"
 #define V_STUB_BUG_UNREACHABLE
+#define V_STUB_MEMCHR
 #include "stubs.h"
 #define C_BUFFER_HARNESS_SUPPORT
 #define C_BUFFER_STO_REFUSING
